@@ -394,7 +394,7 @@ func (s *State) evalPrintLogError(node *ast.Builtin) object.Object {
 		if i > 0 {
 			buf.WriteString(" ")
 		}
-		r := s.evalInternal(v)
+		r := object.Value(s.evalInternal(v)) // the value, not a reference to it: a referenced string prints like a string.
 		// If what we print/println is an error, return it instead. log can log errors.
 		if r.Type() == object.ERROR && !doLog {
 			return r
